@@ -19,16 +19,16 @@ import (
 )
 
 type vfC19Query struct {
-	Blocks   bool // StreamBlocks instead of StreamTransactions
-	Start    int  // index into the sorted list of interesting slots
-	Len      int  // range length in slots (end = start+Len); -1: end omitted
+	Blocks    bool // StreamBlocks instead of StreamTransactions
+	Start     int  // index into the sorted list of interesting slots
+	Len       int  // range length in slots (end = start+Len); -1: end omitted
 	EdgeStart bool // start at one of the last archived blocks of an epoch that has a loaded successor
-	NoFilter bool
-	Vote     int // 0 absent, 1 true, 2 false
-	Failed   int
-	Include  []int // account universe indexes
-	Exclude  []int
-	Required []int
+	NoFilter  bool
+	Vote      int // 0 absent, 1 true, 2 false
+	Failed    int
+	Include   []int // account universe indexes
+	Exclude   []int
+	Required  []int
 }
 
 type vfC19Case struct {
